@@ -23,7 +23,7 @@
     partition, so 2 G <= OPT, and k L <= total + (k - 1) G. *)
 From Prtpy Require Import Base.Prelude Base.Perms Model.Binner Model.KK Model.Objectives
   Spec.Partition Proofs.BaseLemmas Proofs.BinnerLemmas Proofs.KKProofs Proofs.RatioProofs
-  Proofs.CKKOptimal Oracle.Reach Proofs.OracleSpec.
+  Proofs.CKKOptimal Proofs.GreedyProofs Oracle.Reach Proofs.OracleSpec.
 From Coq Require Import Sorting.Sorted ZifyBool.
 
 (** ---- 1. value level: k + 1 values >= g in k bins ---- *)
@@ -711,3 +711,55 @@ Section Vec.
       injection Hkk as <-. apply Inv_single; assumption.
   Qed.
 End Vec.
+
+(** ---- 7. the theorems ---- *)
+Section KKRatio.
+  Context {A : Type} (valueof : A -> Z).
+
+  (** for every threshold G that at most k items exceed: either the largest sum is a single item,
+      or the sums differ by at most G *)
+  Theorem kk_dichotomy k items b G : (1 <= k)%nat -> items <> [] ->
+    Forall (fun x => 0 <= valueof x) items -> 0 <= G ->
+    cnt_gt G (map valueof items) <= Z.of_nat k ->
+    kk valueof true k items = Ok b ->
+    zmax (sums b) <= zmax (map valueof items) \/ zmax (sums b) - zmin (sums b) <= G.
+  Proof.
+    intros Hk Hne Hpos HG Hc Hkk. destruct (zmax_values_bound valueof items Hpos) as [HM Hall].
+    apply (kk_dichotomy_gen G (zmax (map valueof items)) HG HM k valueof items b); assumption.
+  Qed.
+
+  (** G = the (k+1)-th largest value (0 when there are at most k items) *)
+  Definition kth_value (k : nat) (items : list A) : Z := nth k (sorted_values valueof items) 0.
+
+  Theorem kk_gap_kth k items b : (1 <= k)%nat -> items <> [] ->
+    Forall (fun x => 0 <= valueof x) items -> kk valueof true k items = Ok b ->
+    zmax (sums b) <= zmax (map valueof items) \/ zmax (sums b) - zmin (sums b) <= kth_value k items.
+  Proof.
+    intros Hk Hne Hpos Hkk.
+    destruct (kth_threshold k (sorted_values valueof items) (sorted_values_sorted valueof items)
+                (sorted_values_nonneg valueof items Hpos)) as (H0 & H1 & _).
+    apply (kk_dichotomy k items b (kth_value k items)); try assumption.
+    rewrite <- (cnt_gt_perm _ _ _ (sorted_values_perm valueof items)). exact H1.
+  Qed.
+
+  (** KK's largest sum is at most (3/2 - 1/(2k)) times the optimum *)
+  Theorem kk_ratio_32_partial k items b opt : (1 <= k)%nat -> items <> [] ->
+    Forall (fun x => 0 <= valueof x) items -> kk valueof true k items = Ok b ->
+    Opt MinLargest k (map valueof items) opt ->
+    2 * Z.of_nat k * zmax (sums b) <= (3 * Z.of_nat k - 1) * opt.
+  Proof.
+    intros Hk Hne Hpos Hkk Hopt.
+    pose proof (values_nonneg valueof items Hpos) as Hvs.
+    destruct (kk_partition valueof k items Hk Hne) as (b' & Hb' & Hpart).
+    rewrite Hkk in Hb'. injection Hb' as <-.
+    destruct (kth_threshold k (sorted_values valueof items) (sorted_values_sorted valueof items)
+                (sorted_values_nonneg valueof items Hpos)) as (H0 & _ & H2).
+    apply (gap_ratio_32 k (map valueof items) (sums b) opt (kth_value k items)); try assumption.
+    - apply partition_attainable. exact Hpart.
+    - unfold kth_value. destruct (Nat.lt_ge_cases k (length (sorted_values valueof items))) as [Hlt|Hge].
+      + apply (opt_ge_twice k (map valueof items)); try assumption.
+        unfold cnt_ge. rewrite <- (zsum_perm _ _ (Permutation_map _ (sorted_values_perm valueof items))). apply H2. exact Hlt.
+      + rewrite (nth_overflow _ 0 Hge). pose proof (opt_minlargest_nonneg _ _ _ Hopt Hvs Hk). lia.
+    - apply kk_gap_kth; assumption.
+  Qed.
+End KKRatio.
